@@ -505,7 +505,7 @@ def run(ctx):
         return {"level": "model_checking", "exhaustive": False}
     if len(targets) < NT:
         raise MachineryError("vacuous: stress ran on %d targets only" % len(targets))
-    for need in ("calls", "concurrent_reads", "concurrent_resets", "testify_calls", "testify_concurrent_on", "testify_expecter_rounds", "testify_concurrent_first_expect", "recorder_targets", "histories"):
+    for need in ("calls", "concurrent_reads", "concurrent_resets", "testify_calls", "testify_concurrent_on", "testify_expecter_rounds", "testify_concurrent_first_expect", "testify_concurrent_constructors", "testify_concurrent_typed_on", "recorder_targets", "histories"):
         if not stats.get(need):
             raise MachineryError("vacuous: stress statistics lack %s" % need)
     if predictions and not n_viol:
